@@ -278,8 +278,9 @@ def r2_optimizer(repo: Repo, rep):
             if p.ret is RAISE:
                 continue
             v = p.env.get(f"self.{attr}")
-            good = (isinstance(v, ast.Call) and ends(attr_chain(v.func), "ModuleList") and len(v.args) == 1
-                    and dump(v.args[0]) in (param, f"list({param})", f"tuple({param})"))
+            members = kwarg(v, "modules", 0) if isinstance(v, ast.Call) else None
+            good = (isinstance(v, ast.Call) and ends(attr_chain(v.func), "ModuleList") and len(v.args) + len(v.keywords) == 1
+                    and members is not None and dump(members) in (param, f"list({param})", f"tuple({param})"))
             rep.check(R, good, init.site(), init.fq, f"self.{attr} = nn.ModuleList({param})", f"self.{attr} = {dump(v)}", dump(v))
     # super().__init__() must run before module attributes are assigned (else nn.Module raises) — not a property clause.
     co = S.methods.get("configure_optimizers")
